@@ -56,8 +56,12 @@ def gen_cases(rng, n, tier):
 def corpus():
     cfg = dict(shape='blog', strategy='validity')
     inh = dict(shape='inh', strategy='validity', changes=False, tracker=False, null_delete=False, autoflush=False)
-    return [dict(kind='H', cfg=inh, prog=[['add', 0, 1, {'a': 1}], ['commit'], ['del', 0, 1], ['flush'],
-                                          ['add', 2, 1, {'a': 2, 'tracks': 3}], ['commit']]),
+    return [dict(kind='H', cfg=inh, twin_only=True,
+                 prog=[['add', 0, 1, {'a': 1}], ['commit'], ['del', 0, 1], ['flush'],
+                       ['add', 2, 1, {'a': 2, 'tracks': 3}], ['commit'], ['set', 2, 1, {'tracks': 4}], ['commit']]),
+            dict(kind='H', cfg=inh, twin_only=True,
+                 prog=[['add', 1, 3, {'a': 1, 'pages': 2}], ['commit'], ['del', 1, 3], ['flush'],
+                       ['add', 0, 3, {'a': 2}], ['commit'], ['set', 0, 3, {'a': 4}], ['commit']]),
             dict(kind='H', cfg=cfg, prog=[['add', 0, 1, {'a': 1}], ['add', 2, 1, {'a': 1}], ['commit'], ['rawlink', 1, 1], ['commit']]),
             dict(kind='H', cfg=cfg, prog=[['add', 0, 1, {'a': 1}], ['add', 2, 1, {'a': 1}], ['link', 1, 1], ['flush'], ['unlink', 1, 1], ['commit']]),
             dict(kind='H', cfg=cfg, prog=[['add', 0, 1, {'a': 1}], ['add', 2, 1, {'a': 1}], ['flush'], ['rawlink_inline', 1, 1], ['add', 0, 2, {'a': 1}], ['commit']]),
@@ -192,7 +196,7 @@ def run_impl(cases):
 
 def encode(case, obs):
     if case['kind'] == 'H':
-        return '(C07_H %s)' % hist.encode_case(case, obs)
+        return '(%s %s)' % ('C07_T' if case.get('twin_only') else 'C07_H', hist.encode_case(case, obs))
     if obs.get('exc'):
         return '(C07_R snap0 snap0 0 true)'
     return '(C07_R %s %s %s false)' % (hist.g_snap(obs['before'], obs['ccfg']), hist.g_snap(obs['after'], obs['ccfg']),
